@@ -53,8 +53,19 @@ def apply_diff(sources: SourceSet, diff_text: str) -> SourceSet | None:
         out: list[str] = []
         pos = 0  # index into src_lines
         for start, body in hs:
-            idx = start - 1
-            if idx < pos:
+            # like patch(1): the hunk may have moved; take the nearest place (not before the previous hunk) where all
+            # of its context and removed lines match exactly
+            old = [(b[1:] if b else "") for b in body if (b[:1] if b else " ") in (" ", "-")]
+            nominal = start - 1
+            idx = None
+            for k in range(0, len(src_lines) + 1):
+                for cand in (nominal + k, nominal - k) if k else (nominal,):
+                    if cand >= pos and cand + len(old) <= len(src_lines) and src_lines[cand : cand + len(old)] == old:
+                        idx = cand
+                        break
+                if idx is not None:
+                    break
+            if idx is None:
                 return None
             out.extend(src_lines[pos:idx])
             pos = idx
